@@ -1156,8 +1156,13 @@ func (c *Client) getSupportedVersion(ctx context.Context) (*GetSupportedVersionR
 
 		sv.LLRPStatus = errMsg.LLRPStatus
 
-		if sv.LLRPStatus.Status == StatusMsgVerUnsupported {
+		switch sv.LLRPStatus.Status {
+		case StatusMsgVerUnsupported:
 			sv.LLRPStatus = LLRPStatus{Status: StatusSuccess}
+		case StatusSuccess:
+			// an ErrorMessage that reports success rejects nothing and names no version:
+			// it is not the answer of a v1.0.1 reader, just an unexpected response
+			return nil, fmt.Errorf("unexpected response to %v: %v with a success status", MsgGetSupportedVersion, resp)
 		}
 
 	case MsgGetSupportedVersionResponse:
